@@ -1041,6 +1041,12 @@ func getApproverAttestationAndKeyIDsForIndex(ctx context.Context, repo gitstore.
 					return nil, nil, fmt.Errorf("%w: failed to verify GitHub app approval attestation, signed by untrusted key", ErrVerificationFailed)
 				}
 
+				// The attestation is looked up by where it is stored; what
+				// counts is the change its signed statement names
+				if err := githubv01.ValidatePullRequestApproval(githubApprovalAttestation, targetRef, fromID.String(), toID.String()); err != nil {
+					return nil, nil, fmt.Errorf("%w: GitHub app approval attestation is not for the change under verification", ErrVerificationFailed)
+				}
+
 				payloadBytes, err := githubApprovalAttestation.DecodeB64Payload()
 				if err != nil {
 					return nil, nil, err
